@@ -507,3 +507,12 @@ package ssh
 //@ check_at "caKey := skKeyWithoutUP(cert.SignatureKey)" cert.ValidAfter <= unixNow && (unixNow < cert.ValidBefore || cert.ValidBefore == 18446744073709551615)
 //@ check_at "clock := c.Clock" len(cert.ValidPrincipals) == 0 || exists(k, 0, len(cert.ValidPrincipals), cert.ValidPrincipals[k] == principal)
 //@ canary ensures result != nil
+
+// parseTuples (critical options and extensions of a certificate): a name is taken only if it is strictly
+// greater than the one before it ([PROTOCOL.certkeys]: lexical order, hence no duplicates), so the map built
+// here loses nothing and re-marshals to the bytes received; no index out of range.
+//@ func parseTuples
+//@ props C41
+//@ modifies heap
+//@ check_at "if val, in, ok = parseString(in); !ok {" !loopvar(1, haveLastKey) || loopvar(1, lastKey) < keyStr
+//@ canary ensures result1 != nil
